@@ -381,3 +381,110 @@ def gen_rvdyn():
                 ob["theorems"] += [f"ob{n}_accepts_doc", f"ob{n}_injective"]
         fh.write("end DynasmVerif.RvDyn\n")
     return dict(obligations=obligations, theorems=thms, forms=fs)
+
+
+# =================================================================================================== register slots (both backends)
+A64_REG_CLS = {"R": ".any", "REven": ".even", "RNoZr": ".noZr", "R4": ".low16"}
+RV_REG_CLS = {"R": ".any", "Reven": ".even", "Rno0": ".no0", "Rno02": ".no02", "Rpop": ".pop", "Rpops": ".pops", "Rpops2": ".pops"}
+A64_REG_KINDS = {"W", "X", "WSP", "XSP", "B", "H", "S", "D", "Q", "V", "WX"}
+
+
+def gen_regdyn():
+    """Generated/RegDyn.lean: one obligation per register command class of each backend (representative: a single-word form whose slot is
+    handled by exactly that command): the run-time expression the macro generates for `X(v)` = the literal-path model RegEnc for every
+    in-family register number."""
+    obligations, seen = [], set()
+    # aarch64
+    rows = [r for r in tables.dump("aarch64") if "m" in r]
+    fs = forms.load("aarch64")
+    entry_of = attach_entries(fs, rows)
+    for fi, f in enumerate(fs):
+        r = entry_of.get(fi)
+        groups = group_commands(rustdebug.parse(r["commands"]))
+        for idx, g in sorted(groups.items()):
+            if len(g) != 1 or name_of(g[0]) not in A64_REG_CLS or idx not in f.indices or f.kind_of(idx) not in A64_REG_KINDS:
+                continue
+            key = ("aarch64", name_of(g[0]))
+            if key in seen:
+                continue
+            base = f.base_values()
+            if base is None or any(isinstance(v, str) and v.startswith("->") for v in base.values()):
+                continue
+            seen.add(key)
+            fam = "X" if f.kind_of(idx) == "WX" else f.kind_of(idx)
+            obligations.append(dict(n=len(obligations), arch="aarch64", cls=A64_REG_CLS[name_of(g[0])], off=g[0][1], header="; .arch aarch64 ;",
+                                    line=f.render(base, runtime={idx: f"{fam}(v)"}), ty="u32", mnemonic=f.mnemonic, cmd=name_of(g[0])))
+    # riscv
+    rrows = [r for r in tables.dump("riscv") if "m" in r]
+    rfs = forms.load("riscv")
+    for fi, (f, r) in enumerate(zip(rfs, rrows)):
+        op = rustdebug.parse(r["op"])
+        if op["template"][0] not in ("Single", "Compressed"):
+            continue
+        cmds = op["commands"]
+        if any(name_of(c) == "Repeat" for c in cmds):
+            continue
+        cur = 0
+        for c in cmds:
+            n = name_of(c)
+            if n == "Next":
+                cur += 1
+                continue
+            if n in RV_CHECKS or n in ("BitRange", "RBitRange"):
+                continue
+            if n in RV_REG_CLS and cur in f.indices and f.kind_of(cur) in ("X", "F"):
+                key = ("riscv", n)
+                base = f.base_values()
+                if key not in seen and base is not None and not any(isinstance(v, str) and v.startswith("->") for v in base.values()) and "e" not in f.extra[1][0][:1]:
+                    seen.add(key)
+                    isa = "riscv64" if "rv64" in f.extra[0] else "riscv32"
+                    obligations.append(dict(n=len(obligations), arch="riscv", cls=RV_REG_CLS[n], off=c[1], header=f"; .arch {isa} ; .feature {f.extra[1][0]} ;",
+                                            line=f.render(base, runtime={cur: f"{f.kind_of(cur)}(v)"}), ty="u8", mnemonic=f.mnemonic, cmd=n,
+                                            compressed=op["template"][0] == "Compressed"))
+            cur += 1
+    _, out = common.sh([common.PLUG, "exec"], inp="\n".join("cl " + ob["header"] + " " + ob["line"] for ob in obligations) + "\n", timeout=600)
+    for ob, (_, a) in zip(obligations, common.answers_of_impl(out)):
+        if not a.startswith("ok "):
+            ob["skip"] = "representative line rejected: " + a[:100]
+            continue
+        stmts = [s for s in json.loads(a[3:]) if s[:2] in ("c2", "c4", "eu")]
+        if len(stmts) != 1 or not stmts[0].startswith("eu"):
+            ob["skip"] = "not a single run-time word"
+            continue
+        k, _, txt = stmts[0].partition("|")
+        m = re.match(r"^\(+(\d+)u32 \|", txt)
+        if not m:
+            ob["skip"] = "no leading constant"
+            continue
+        ob["K"], ob["w"], ob["expr"] = int(m.group(1)), (16 if k == "eu2" else 32), txt
+        try:
+            ob["ir"] = {ck: rustexpr.translate(txt, {"v": ob["ty"]}, ck) for ck in (True, False)}
+        except rustexpr.Untranslatable as e:
+            ob["skip"] = f"untranslatable: {e}"
+    thms = []
+    with open(os.path.join(common.GEN, "RegDyn.lean"), "w") as fh:
+        fh.write("import Std.Tactic.BVDecide\nimport DynasmVerif.Model.RegEnc\n/-! generated on every run: run-time register expressions of the macro and their obligations -/\n"
+                 "namespace DynasmVerif.RegDyn\nopen DynasmVerif.RegEnc\n")
+        for ob in obligations:
+            if "skip" in ob:
+                continue
+            n, w = ob["n"], (32 if ob["ty"] == "u32" else 8)
+            ext = "v" if w == 32 else "(v.zeroExtend 32)"
+            fh.write(f"\n/-- `{ob['header']} {ob['line']}` ({ob['arch']} {ob['cmd']}): {ob['expr'][:300].replace('-/', '- /')} -/\n")
+            for tag, ck in (("checked", True), ("release", False)):
+                p, val, _ = ob["ir"][ck]
+                fh.write(f"def ob{n}_panic_{tag} (v : BitVec {w}) : Bool := {rustexpr.lean(p)}\n")
+                fh.write(f"def ob{n}_word_{tag} (v : BitVec {w}) : BitVec {ob['w']} := {rustexpr.lean(val)}\n")
+                rhs = f"({ob['K']}#32 ||| place (Cls.code {ob['cls']} {ext}) {ob['off']})"
+                if ob["w"] == 16:
+                    rhs = f"({rhs}.truncate 16)"
+                fh.write(f"theorem ob{n}_dyn_eq_static_{tag} (v : BitVec {w}) (hn : v.ult 32 = true) :\n"
+                         f"    ob{n}_panic_{tag} v = !(Cls.ok {ob['cls']} false {ext}) ∧ (ob{n}_panic_{tag} v = false → ob{n}_word_{tag} v = {rhs}) := by\n"
+                         f"  simp only [ob{n}_panic_{tag}, ob{n}_word_{tag}, Cls.ok, Cls.code, place] at *\n  bv_decide (config := {{ timeout := 120 }})\n")
+                thms.append(f"ob{n}_dyn_eq_static_{tag}")
+            # C04: the class accepts exactly its registers and encodes them injectively
+            fh.write(f"theorem ob{n}_injective (a b : BitVec 32) (ha : a.ult 32 = true) (hb : b.ult 32 = true) (oa : Cls.ok {ob['cls']} false a = true) (ob : Cls.ok {ob['cls']} false b = true)\n"
+                     f"    (h : Cls.code {ob['cls']} a = Cls.code {ob['cls']} b) : a = b := by\n  simp only [Cls.ok, Cls.code] at *\n  bv_decide (config := {{ timeout := 120 }})\n")
+            thms.append(f"ob{n}_injective")
+        fh.write("end DynasmVerif.RegDyn\n")
+    return dict(obligations=obligations, theorems=thms)
